@@ -58,6 +58,8 @@ func validDict(d map[string]string) bool {
 var texts = []string{
 	"{A}", "{A}{B}", "{{A}}", "{A", "A}", "{}", "{a}", "{AB}", "x{A}y{A}z", "{A}{A}", "{B{A}}", "{Z}", "va", "plain", "",
 	"{A}}", "{{A}", "{ A}", "{A }", "{A-1}", "{A_b}", "{9}", "{A}{", "}{A}{", "{B}", "{A}/{B}/{A}", "\\{A}", "{A\n}", "{É}", "$A ${A} %A%",
+	// bytes a word-joining or line-based implementation might use as its own separator
+	"x\x00{A}", "{A}\x00{B}", "{A}\t{B} {A}\n{B}", "{A}\x1f{B}",
 }
 
 type dictT struct {
@@ -94,6 +96,7 @@ var dicts = []dictT{
 	{"A=1B2", map[string]string{"A": "1B2"}},
 	{"A1=B2", map[string]string{"A1": "B2"}},
 	{"A=2,B=1", map[string]string{"A": "2", "B": "1"}},
+	{"values-with-separator-bytes", map[string]string{"A": "v\x00w", "B": "line1\nline2\tend"}},
 }
 
 // shape of the layout under substitution: "" (two steps, two inspections) | inspections-only | steps-only
